@@ -361,3 +361,20 @@ V('px-leaf-tag-renamed', PX, "leaf_node = etree.SubElement(parent, 'lf')", "leaf
 V('rd-xml-reads-extra-key', RD, "                    chunk=attrib['chunk']\n", "                    chunk=attrib['chunk'],\n                    sense=attrib['sense']\n", ['C15'])
 V('ja-symbol-renamed', JA, 'op_symbol=">Bx1"', 'op_symbol=">Bx"', ['C15', 'C04'])
 V('pi-silent-local-lang', PI, "                use_symbol=get_global_language() == 'ja',", "                use_symbol='ja' == get_global_language(),", ['C15'], expect='silent')
+
+# ---------------------------------------------------------------- C17
+PR = 'depccg/parsing.py'
+V('p-mask-zeros', PR, "    result = numpy.ones(length, dtype=numpy.bool)\n    result[indices] = 0", "    result = numpy.zeros(length, dtype=numpy.bool)\n    result[indices] = 1", ['C17'])
+V('p-mask-negated-use', PR, "tag_scores[index, category_dict[token.word]\n                           ] = large_negative_value", "tag_scores[index, ~category_dict[token.word]\n                           ] = large_negative_value", ['C17'])
+V('p-row-off-by-one', PR, "        for index, token in enumerate(tokens):\n            if token.word in category_dict:", "        for index, token in enumerate(tokens, 1):\n            if token.word in category_dict:", ['C17'])
+V('p-ids-from-1', PR, "        cat: index for index, cat in enumerate(categories)\n", "        cat: index for index, cat in enumerate(categories, 1)\n", ['C17'])
+V('p-writes-dep', PR, "    for tokens, (tag_scores, _) in zip(doc, score_results):\n        for index, token in enumerate(tokens):", "    for tokens, (_, tag_scores) in zip(doc, score_results):\n        for index, token in enumerate(tokens):", ['C17'])
+V('p-wrong-value', PR, "                           ] = large_negative_value", "                           ] = -large_negative_value", ['C17'])
+V('p-no-word-guard', PR, "            if token.word in category_dict:\n                tag_scores", "            if True:\n                tag_scores", ['C17'])
+V('p-lowercases-token', PR, "            if token.word in category_dict:\n                tag_scores", "            token['word'] = token.word.lower()\n            if token.word in category_dict:\n                tag_scores", ['C17'])
+V('p-no-typecheck-filters', PR, "    doc, score_results = _type_check(doc, score_results, categories)\n\n    category_ids = {", "    category_ids = {", ['C17', 'C11'])
+V('d-bad-target', 'depccg/models/targets.en.jsonnet', "    'N/S[for]',", "    'N/S[for',", ['C17'])
+V('d-dup-target', 'depccg/models/targets.ja.jsonnet', "{\n  targets: [\n", "{\n  targets: [\n    'S[mod=nm,form=base,fin=t]',\n    '(S[mod=nm,form=base,fin=t])',\n", ['C17'])
+V('d-dict-cat-not-in-targets', 'depccg/models/targets.en.jsonnet', "    'S[poss]/S[dcl]',\n", "", ['C17'])
+V('d-ambiguous-slashes', 'depccg/models/unary_rules.en.jsonnet', "unary_rules: [\n", "unary_rules: [\n    ['NP', 'S/S/NP'],\n", ['C17'])
+V('d-silent-blanks', 'depccg/models/targets.en_rebank.jsonnet', "    ',',\n", "    ' , ',\n", ['C17'], expect='silent')
